@@ -96,7 +96,7 @@ class MTable:
             raise Reject("bool selector")
         if isinstance(sel, int):
             if not (-n <= sel < n):
-                raise IndexError(sel)
+                raise Reject("position outside the table (not specified)")
             return [sel % n]
         if isinstance(sel, str):
             name, count, offset = parse_row_string(sel)
@@ -149,7 +149,7 @@ class MTable:
                     raise Reject("mixed list")
                 if isinstance(x, int):
                     if not (-n <= x < n):
-                        raise IndexError(x)
+                        raise Reject("position outside the table (not specified)")
                     out.append(x % n)
                 elif isinstance(x, str):
                     i = self.resolve(x)
